@@ -313,7 +313,7 @@ def float_arg_from_proto(
     match which:
         case 'float_value':
             result = float(arg_proto.float_value)
-            if round(result) == result:
+            if math.isfinite(result) and round(result) == result:
                 result = int(result)
             return result
         case 'symbol':
@@ -361,12 +361,12 @@ def arg_from_proto(
             match which_val:
                 case 'float_value':
                     result = float(arg_value.float_value)
-                    if math.ceil(result) == math.floor(result):
+                    if math.isfinite(result) and math.ceil(result) == math.floor(result):
                         return int(result)
                     return result
                 case 'double_value':
                     result = float(arg_value.double_value)
-                    if math.ceil(result) == math.floor(result):
+                    if math.isfinite(result) and math.ceil(result) == math.floor(result):
                         return int(result)
                     return result
                 case 'bool_value':
